@@ -8,6 +8,7 @@
 pub mod e2;
 pub mod isolate;
 pub mod tree;
+pub mod watch;
 
 use std::{
     collections::{BTreeMap, HashSet},
@@ -264,6 +265,7 @@ impl Run {
             .ok()
             .and_then(|s| s.parse().ok())
             .unwrap_or(0);
+        watch::start(prop, if tier.thorough() { 600 } else { 120 });
         Self {
             prop,
             tier,
@@ -489,6 +491,7 @@ pub fn replay_file(prop: &str, path: &str, replay: &dyn Fn(&Value) -> Vec<Violat
     let v: Value = serde_json::from_str(&text)
         .unwrap_or_else(|e| machinery_error(&format!("cannot parse {path}: {e}")));
     let case = if v.get("case").is_some() { v["case"].clone() } else { v };
+    watch::start_replay(prop, path, 120);
     let a = guarded(|| replay(&case));
     let b = guarded(|| replay(&case));
     let fmt = |r: &Result<Vec<Violation>, String>| match r {
